@@ -153,6 +153,9 @@ func (s *session) doPut(of *offer, transport string, out *outcome) {
 		rec := httptest.NewRecorder()
 		s.handler().ServeHTTP(rec, req)
 		out.status = rec.Code
+		if rec.Code/100 != 2 {
+			out.text = truncText(rec.Body.String())
+		}
 	default:
 		s.ensureServer()
 		req, err := http.NewRequest("PUT", s.srv.URL+url, plainReader{body})
@@ -172,9 +175,13 @@ func (s *session) doPut(of *offer, transport string, out *outcome) {
 		if err != nil {
 			out.terr = err
 		} else {
+			b, _ := io.ReadAll(io.LimitReader(resp.Body, 4096))
 			io.Copy(io.Discard, resp.Body)
 			resp.Body.Close()
 			out.status = resp.StatusCode
+			if resp.StatusCode/100 != 2 {
+				out.text = truncText(string(b))
+			}
 		}
 		s.waitIdle(st0, err != nil)
 	}
@@ -321,6 +328,7 @@ func (s *session) batch(parts []*offer, primary int, transport string) {
 		s.viol("panic/"+s.site()+"/"+pr.Mut, "the batch upload handler panicked (primary part %s %s): %s", pr.Mut, pr.Arg, p)
 	}
 	listed := map[string]int64{}
+	errorText := ""
 	if status == 200 {
 		var br batchResp
 		if err := json.Unmarshal(respBody, &br); err != nil {
@@ -332,6 +340,7 @@ func (s *session) batch(parts []*offer, primary int, transport string) {
 			}
 			listed[e.BlobRef] = e.Size
 		}
+		errorText = truncText(br.ErrorText)
 	}
 	// every listed ref must be a part of this request
 	inReq := map[string]bool{}
@@ -375,6 +384,7 @@ func (s *session) batch(parts []*offer, primary int, transport string) {
 		} else {
 			out.status = 0
 			out.terr = nil
+			out.text = errorText
 			anyRejected = true
 		}
 		saved := p.Want
@@ -410,4 +420,11 @@ func (s *session) checkTrueRefAbsent(p *offer) {
 	if f := fetchFrom(s.b.S, tr); f.present {
 		s.viol("trace-after-reject/fetch/"+s.site(), "bytes sent under the malformed name %q are fetchable afterwards under their real ref %v", p.RefStr, tr)
 	}
+}
+
+func truncText(t string) string {
+	if len(t) > 400 {
+		t = t[:400]
+	}
+	return t
 }
